@@ -2,6 +2,7 @@
 // It never decides a verdict.  One JSON object per input line, one JSON object per output line.
 //
 // Built by harness/build.sh against the library objects compiled from /repo's current working tree.
+#include <cerrno>
 #include <map>
 #include <set>
 #include <algorithm>
@@ -586,6 +587,16 @@ static void names_array(const J *j, std::vector<ustr> &store, std::vector<UChar 
     ptrs.push_back(nullptr);
 }
 
+struct IoErrSrc { const std::string *data; size_t pos, limit; };
+static ssize_t ioerr_read(void *c, char *buf, size_t size) {
+    IoErrSrc *s = (IoErrSrc *) c;
+    size_t end = std::min(s->limit, s->data->size());
+    if (s->pos >= end) { if (s->pos >= s->limit) { errno = EIO; return -1; } return 0; }
+    size_t n = std::min(size, end - s->pos);
+    memcpy(buf, s->data->data() + s->pos, n); s->pos += n;
+    return (ssize_t) n;
+}
+
 static void do_parse(const J &cmd, W &w) {
     std::string bytes;
     if (cmd.has("hex")) bytes = unhex(cmd.gets("hex"));
@@ -631,7 +642,13 @@ static void do_parse(const J &cmd, W &w) {
     cif_tp *cif = nullptr, **cifp = nullptr;
     bool isnew = false;
     if (!target.empty()) { cif = find(cifs, target); isnew = (cif == nullptr); cifp = &cif; }
-    FILE *f = fmemopen(bytes.empty() ? (void *) "" : (void *) bytes.data(), bytes.size(), "rb");
+    FILE *f = nullptr;
+    IoErrSrc iosrc{&bytes, 0, (size_t) cmd.geti("ioerr_after", 0)};
+    if (cmd.has("ioerr_after")) {
+        // a stream whose read fails (EIO) once `ioerr_after` bytes have been delivered
+        cookie_io_functions_t io = {ioerr_read, nullptr, nullptr, nullptr};
+        f = fopencookie(&iosrc, "rb", io);
+    } else f = fmemopen(bytes.empty() ? (void *) "" : (void *) bytes.data(), bytes.size(), "rb");
     if (!f) { f = tmpfile(); }
     std::string before = env_state();
     int rc = FW(cif_parse(f, cmd.geti("noopts", 0) ? nullptr : opts, cifp));
